@@ -57,10 +57,34 @@ pub enum C04 {
         b: StateSpec,
         edits: Vec<String>,
     },
+    /// Runtime path: ticks committed by scheduler passes (the recorded worldline patch is the combined
+    /// ingress-materialisation + rule delta); each recorded patch is replayed on the pre-pass state.
+    Runtime {
+        world: crate::world::runtime::WorldSpec,
+        /// rounds of (intents delivered, then one pass)
+        rounds: Vec<Vec<crate::world::runtime::Intent>>,
+    },
 }
 
 impl Scenario for C04 {
     fn generate(rng: &mut Rng, _tier: Tier, avoid: bool) -> Self {
+        if rng.chance(1, 5) {
+            let world = crate::world::runtime::gen_world(rng, 2, 3, 4);
+            let mut kn = knobs(rng, avoid);
+            kn.absent_16 = 0;
+            let mut nonce = 1u32;
+            let rounds = (0..rng.urange(1, 5))
+                .map(|_| {
+                    (0..rng.urange(1, 4))
+                        .map(|_| {
+                            nonce += 1;
+                            crate::world::runtime::gen_intent(rng, &world, nonce, &kn)
+                        })
+                        .collect()
+                })
+                .collect();
+            return C04::Runtime { world, rounds };
+        }
         if rng.chance(1, 2) {
             // History
             let kn = knobs(rng, avoid);
@@ -135,6 +159,7 @@ impl Scenario for C04 {
         match self {
             C04::History { state, ticks, legacy, workers, faults } => run_history(state, ticks, *legacy, *workers, faults, ctx),
             C04::DiffPair { a, b, edits } => run_pair(a, b, edits, ctx),
+            C04::Runtime { world, rounds } => run_runtime(world, rounds, ctx),
         }
     }
 
@@ -190,6 +215,27 @@ impl Scenario for C04 {
                 }
                 for s in shrink_spec(state) {
                     out.push(C04::History { state: s, ticks: ticks.clone(), legacy: *legacy, workers: *workers, faults: faults.clone() });
+                }
+            }
+            C04::Runtime { world, rounds } => {
+                for i in 0..rounds.len() {
+                    let mut r = rounds.clone();
+                    r.remove(i);
+                    out.push(C04::Runtime { world: world.clone(), rounds: r });
+                }
+                for (ri, r) in rounds.iter().enumerate() {
+                    for ii in 0..r.len() {
+                        let mut rr = rounds.clone();
+                        rr[ri].remove(ii);
+                        out.push(C04::Runtime { world: world.clone(), rounds: rr });
+                        if r[ii].prog.steps.len() > 1 {
+                            for si in 0..r[ii].prog.steps.len() {
+                                let mut rr = rounds.clone();
+                                rr[ri][ii].prog.steps.remove(si);
+                                out.push(C04::Runtime { world: world.clone(), rounds: rr });
+                            }
+                        }
+                    }
                 }
             }
             C04::DiffPair { a, b, edits } => {
@@ -525,4 +571,67 @@ fn op_name(op: &WarpOp) -> &'static str {
         WarpOp::DeleteEdge { .. } => "DeleteEdge",
         WarpOp::SetAttachment { .. } => "SetAttachment",
     }
+}
+
+fn run_runtime(spec: &crate::world::runtime::WorldSpec, rounds: &[Vec<crate::world::runtime::Intent>], ctx: &mut RunCtx) -> Outcome {
+    use crate::world::runtime::{wl_id, PassResult, World};
+    use warp_core::{ProvenanceStore, WorldlineTick};
+    let mut w = match World::new(spec) {
+        Ok(w) => w,
+        Err(e) => return Outcome::violation("state_construction_failed", e),
+    };
+    let warps: Vec<warp_core::WarpId> = (0..ids::N_WARPS).map(ids::warp).collect();
+    for round in rounds {
+        for i in round {
+            let _ = w.deliver(i);
+        }
+        // pre-pass worldline states
+        let pre: Vec<(u8, warp_core::WorldlineState, u64)> = spec
+            .worldlines
+            .iter()
+            .filter_map(|wl| w.runtime.worldlines().get(&wl_id(wl.id)).map(|f| (wl.id, f.state().clone(), f.frontier_tick().as_u64())))
+            .collect();
+        let records = match w.pass() {
+            PassResult::Ok(r) => r,
+            _ => {
+                ctx.hit("reach.runtime_history_stopped_at_failed_pass");
+                break;
+            }
+        };
+        ctx.count("time.runtime_passes", 1);
+        for (wl, state, tick0) in pre {
+            let n = records.iter().filter(|r| r.head_key.worldline_id == wl_id(wl)).count() as u64;
+            if n == 0 {
+                continue;
+            }
+            let mut replay = state.clone();
+            let before_cb = crate::world::rules::callbacks();
+            for t in tick0..tick0 + n {
+                let entry = match w.provenance.entry(wl_id(wl), WorldlineTick::from_raw(t)) {
+                    Ok(e) => e,
+                    Err(e) => return Outcome::violation("provenance_entry_missing", format!("{e:?}")),
+                };
+                let Some(patch) = entry.patch.as_ref() else { return Outcome::violation("provenance_entry_without_patch", format!("wl {wl} tick {t}")) };
+                match catch(|| patch.apply_to_worldline_state(&mut replay)) {
+                    Err(p) => return Outcome::violation("runtime_patch_replay_panicked", p),
+                    Ok(Err(e)) => return Outcome::violation("runtime_patch_replay_failed", format!("wl {wl} tick {t}: recorded patch does not apply to its pre-state: {e:?}")),
+                    Ok(Ok(())) => {}
+                }
+                if t + 1 == tick0 + n && replay.state_root() != entry.expected.state_root {
+                    return Outcome::violation("runtime_patch_replay_root_mismatch", format!("wl {wl} tick {t}"));
+                }
+                ctx.count("time.ticks", 1);
+            }
+            if crate::world::rules::callbacks() != before_cb {
+                return Outcome::violation("replay_ran_rule_callback", "runtime patch replay invoked a rule callback".to_owned());
+            }
+            let live = w.runtime.worldlines().get(&wl_id(wl)).map(|f| abs(f.state().warp_state(), &warps));
+            let got = abs(replay.warp_state(), &warps);
+            if live.as_ref() != Some(&got) {
+                return Outcome::violation("runtime_patch_replay_mismatch", format!("wl {wl}: {}", live.map_or("missing".to_owned(), |l| diff_states(&l, &got))));
+            }
+            ctx.nontrivial(&serde_json::to_vec(&(spec, rounds)).unwrap_or_default());
+        }
+    }
+    Outcome::Ok
 }
